@@ -55,6 +55,10 @@ def run(ctx: Ctx, env):
         return hci.module, fn, [obj, node], {}, hci.qual
 
     paths = interp.explore(setup)
+    from .common import check_shared_caches
+    check_shared_caches(ctx, paths, "R4.no-state-shared-between-strippers",
+                        "a later call that strips another variable reuses the rewrite computed for the first one",
+                        "strip x from x/a/b, then make x/a/b relative to y")
     ctx.floor("paths through visit_Attribute", len(paths), 2)
     seen_shapes = set()
     for x in paths:
